@@ -250,6 +250,39 @@ def check_kinematic(w, rep):
                 verdict_by_branches(rep, "C05.kin", "SO3Mrp.right_jacobian: R' = R [w]x", Rdot, cm.matmul(Rm, Wh), (), W, "MRP rate does not make the rotation matrix evolve as R [w]x")
 
 
+def check_structural_zero(w, rep):
+    """An element given with a numerically (structurally) zero part - SX built from DM zeros, the way constants reach the
+    library - must get the Jacobian the symbolic formula gives at that point: a shortcut taken on `param.is_zero()` is
+    visible only to such inputs (symbols are never structurally zero)."""
+    from .c16 import subs_syms
+    R = "C05.numeric"
+    for an, n in ALGS:
+        if n <= 3:
+            continue
+        alg = w.G(an)
+        x = w.sym("x", n)
+        Js = {}
+        for jn in JNAMES:
+            ok, v = guarded(w, rep, "C05.API", "%s.%s" % (an, jn), lambda jn=jn: w.call(w.elem(alg, x), jn))
+            if ok and isinstance(v, MatVal):
+                Js[jn] = v
+        atoms = sym_atoms_of(x)
+        for k in range(n // 3):
+            z = MatVal(3, 1)
+            z.kind = "DM"
+            parts = [z if j == k else w.sl(x, 3 * j, 3 * j + 3) for j in range(n // 3)]
+            xn = cm.vertcat(*parts)
+            zero_map = {a: Poly() for a in atoms[3 * k:3 * k + 3]}
+            for jn, Jsym in Js.items():
+                inst = "%s.%s with x[%d:%d] numerically zero = the symbolic Jacobian at that point" % (an, jn, 3 * k, 3 * k + 3)
+                ok, Jn = guarded(w, rep, R, inst, lambda jn=jn: w.call(w.elem(alg, xn), jn))
+                if not ok or not isinstance(Jn, MatVal):
+                    continue
+                with with_maxdeg(40):
+                    verdict(rep, R, inst, Jn, subs_syms(Jsym, zero_map), (), w.method_where(alg, jn)[:2],
+                            "the Jacobian of an element with a structurally zero part is not the value of the general formula there", unknown_ok=True)
+
+
 def poly_syms_(p):
     from ..poly import poly_syms
     return poly_syms(p)
@@ -264,12 +297,14 @@ def run(w, rep, tier):
     rep.rule("C05.Q", "left_Q equals Barfoot's closed-form Q block")
     rep.rule("C05.sides", "left_* builders call only left_* helpers and right_* only right_* (right_Q -> left_Q excepted)")
     rep.rule("C05.kin", "quaternion/MRP kinematic Jacobians: qdot = 1/2 q*(0,w) resp. 1/2 (0,w)*q, q.qdot = 0, R' = R[w]x resp. [w]x R")
+    rep.rule("C05.numeric", "an element with a structurally zero 3-slot (numeric zeros) gets the symbolic Jacobian specialised at that point (no is_zero() shortcut changes the value)")
     for an, n in ALGS:
         check_algebra(w, rep, an, n, tier)
     check_blocks(w, rep)
     check_Q_barfoot(w, rep)
     check_side_consistency(w, rep)
     check_kinematic(w, rep)
+    check_structural_zero(w, rep)
     rep.floor("C05.mirror", 6)
     rep.floor("C05.inverse", 6 if tier == "thorough" else 2)
     rep.floor("C05.dexp", 6)
